@@ -74,9 +74,32 @@ fn gen_many(rng: &mut Rng) -> Scn {
     }
 }
 
+/// "As many attempts as it takes": max_hedged_attempts = usize::MAX (written u32::MAX in the
+/// scenario), latency mode, the scripted attempts end with a success (which the stub repeats).
+fn gen_unbounded(rng: &mut Rng) -> Scn {
+    let delay = match rng.below(3) {
+        0 => Delay::FixedUs(*rng.pick(&[500u64, 800])),
+        1 => Delay::Fixed(*rng.pick(&[5u64, 10, 20])),
+        _ => Delay::Table((0..4).map(|_| *rng.pick(&[1u64, 5, 10])).collect()),
+    };
+    let n = rng.range(1, 2) as usize;
+    let calls = (0..n)
+        .map(|_| {
+            let k = rng.range(0, 3) as usize;
+            let mut attempts: Vec<Behaviour> = (0..k).map(|_| Behaviour { lat_ms: *rng.pick(&[0u64, 5, 10, 30]), out: Outcome::Err(0), yields: 0 }).collect();
+            attempts.push(Behaviour { lat_ms: *rng.pick(&[0u64, 5, 10, 30]), out: Outcome::Ok, yields: 0 });
+            Call { start_ms: *rng.pick(&[0u64, 5]), attempts }
+        })
+        .collect();
+    Scn { max: u32::MAX, delay, calls, clone_warmup_ms: 0, knobs: SchedKnobs::gen(rng, false, 60), order: rng.below(4) as u8 }
+}
+
 pub fn gen(rng: &mut Rng) -> Scn {
     if rng.chance(1, 12) {
         return gen_many(rng);
+    }
+    if rng.chance(1, 14) {
+        return gen_unbounded(rng);
     }
     let max = rng.range(1, 4) as u32;
     let delay = match rng.below(7) {
@@ -123,13 +146,24 @@ pub fn gen(rng: &mut Rng) -> Scn {
 }
 
 pub fn valid(s: &Scn) -> bool {
+    let unbounded = s.max == u32::MAX;
     s.max >= 1
-        && s.max <= 24
+        && (s.max <= 24 || unbounded)
+        && (!unbounded
+            || (s.clone_warmup_ms == 0
+                && s.knobs.jumps.is_empty()
+                && s.calls.iter().all(|c| !c.attempts.is_empty() && c.attempts.len() <= 4 && c.attempts.last().map(|b| b.out == Outcome::Ok).unwrap_or(false))
+                && match &s.delay {
+                    Delay::Fixed(d) => *d >= 1 && *d <= 100,
+                    Delay::FixedUs(_) => true,
+                    Delay::Immediate => false,
+                    Delay::Table(t) => t.iter().all(|d| *d >= 1),
+                }))
         && !s.calls.is_empty()
         && s.calls.len() <= 4
         && s.calls.iter().all(|c| {
             c.start_ms <= 100
-                && c.attempts.len() == s.max as usize
+                && (unbounded || c.attempts.len() == s.max as usize)
                 && c.attempts.iter().all(|b| b.lat_ms <= 200 && b.yields <= 4 && matches!(b.out, Outcome::Ok | Outcome::Err(0) | Outcome::Err(1)))
         })
         && match &s.delay {
@@ -176,13 +210,13 @@ pub fn run(s: &Scn, ctx: &mut RunCtx) -> RunOutput {
         if scn.order & 2 != 0 {
             // decoy, overwritten below
             b = match &scn.delay {
-                Delay::Immediate | Delay::Fixed(0) => b.delay(Duration::from_millis(3)).max_hedged_attempts(scn.max as usize + 1),
+                Delay::Immediate | Delay::Fixed(0) => b.delay(Duration::from_millis(3)).max_hedged_attempts(count(scn.max).saturating_add(1)),
                 Delay::Table(_) => b.no_delay(),
                 _ => b.delay_fn(|_| Duration::ZERO).max_hedged_attempts(1),
             };
         }
         if scn.order & 1 == 0 {
-            b = b.max_hedged_attempts(scn.max as usize);
+            b = b.max_hedged_attempts(count(scn.max));
         }
         b = match &scn.delay {
             Delay::Fixed(d) => b.delay(if *d == u64::MAX { Duration::MAX } else { Duration::from_millis(*d) }),
@@ -194,7 +228,7 @@ pub fn run(s: &Scn, ctx: &mut RunCtx) -> RunOutput {
             }
         };
         if scn.order & 1 != 0 {
-            b = b.max_hedged_attempts(scn.max as usize);
+            b = b.max_hedged_attempts(count(scn.max));
         }
         let layer = b.build();
         let base = layer.layer(SimInner::new(0));
@@ -234,7 +268,7 @@ pub fn run(s: &Scn, ctx: &mut RunCtx) -> RunOutput {
         }
         let c = &s.calls[i];
         let mine: Vec<_> = calls.iter().filter(|x| x.req == i as u32).collect();
-        let max = s.max as usize;
+        let max = count(s.max);
         if mine.len() > max {
             world::violation("C12.max_attempts", "", format!("hedged call {} started {} inner calls, max_hedged_attempts {}", i, mine.len(), max));
         }
